@@ -448,3 +448,7 @@ def run(F, rep, tier):
     rep.floor("C06-R5", "constant codec obligations", n5, 10)
     from rules.k2_targets import run_k2
     run_k2(F, rep, "C06", "C06-R8")
+    from rules import c06_codec
+    c06_codec.run(F, rep, core)
+    from rules import c06_result
+    c06_result.run(F, rep)
